@@ -298,6 +298,7 @@ func c16Case(c *Ctx, name string, domains bool, links [][]string, rules [][]stri
 func runC16(c *Ctx) {
 	c.Exhaustive = true
 	c16PatternDomains(c)
+	c16PatternNames(c)
 	nodes, maxRules, maxDomLinks := 3, 2, 3
 	if c.Thorough() {
 		nodes, maxRules, maxDomLinks = 4, 2, 4
